@@ -2,7 +2,8 @@
 
 Acts (`act()`), needs and auxiliary framers' own runs are opaque: a call is recorded in the ghost call
 trace and may change store data that is not modelled; by assumption (stated in DESIGN.md) an act does not
-call methods of the framer that is running it (no re-entrancy).
+call methods of the framer that is running it (no re-entrancy).  One field write by acts IS modelled: a `done` act
+sets .done of a framer (possibly its own) to True.
 """
 from pyvc.api import *
 from contracts import c42_timers   # StoreLike
@@ -42,11 +43,43 @@ def _act_call(E, act, args, kwargs):
     return v
 
 
+# Action acts (enter / renter / recur / precur / exit / rexit contexts) versus conditions: a `done` act
+# (completing.CompleteDone.action: `tasker.done = True` for each named framer, `me` included) is an action act and
+# WRITES a framer field: .done of any framer, the one running the act included, may go from False to True during such a
+# call (never back: the only writers of Framer.done are CompleteDone (True), Framer.enterAll (False), Framer.exitAll
+# (True) and the runner prelude).  Needs (benter conditions, transition / conditional-auxiliary needs) and the transit
+# acts their resolution generates (marker resets) are conditions / store updates: they stay plain `Act`.
+classdecl("DoAct", fields={}, bases=("Act",))
+DONE_KEY = ("f", "Framer.done", 0)
+
+
+def acts_may_complete(E):
+    """every framer's .done may have been set True (monotone); usable as a `modifies` entry and from the DoAct hook"""
+    old = E.harr(DONE_KEY, [z3.IntSort()], z3.BoolSort())
+    new = E.fresh("hvf_done_acts", old.sort())
+    r = z3.Int("r!done")
+    E.assume(z3.ForAll([r], z3.Implies(z3.Select(old, r), z3.Select(new, r)), patterns=[z3.Select(new, r)]))
+    E.heap[DONE_KEY] = new
+    E.note_write(DONE_KEY, ("allbut", ()))
+
+
+acts_may_complete.frame = lambda E: []
+acts_may_complete.allbut = ({"Framer": ["done"]}, [])
+
+
+@hook("DoAct", "call")
+def _doact_call(E, act, args, kwargs):
+    """an action act: traced, arbitrary truth value, may complete framers (.done := True)"""
+    v = _act_call(E, act, args, kwargs)
+    acts_may_complete(E)
+    return v
+
+
 FRAME_F = dict(name=STR, framer=Ref("Framer"), over=Opt(Ref("Frame")), unders=List(Ref("Frame")),
                outline=List(Ref("Frame")), head=List(Ref("Frame")), human=STR, headHuman=STR,
-               beacts=List(Ref("Act")), enacts=List(Ref("Act")), renacts=List(Ref("Act")),
-               reacts=List(Ref("Act")), preacts=List(Ref("Act")), exacts=List(Ref("Act")),
-               rexacts=List(Ref("Act")), auxes=List(Ref("Framer")))
+               beacts=List(Ref("Act")), enacts=List(Ref("DoAct")), renacts=List(Ref("DoAct")),
+               reacts=List(Ref("DoAct")), preacts=List(Ref("DoAct")), exacts=List(Ref("DoAct")),
+               rexacts=List(Ref("DoAct")), auxes=List(Ref("Framer")))
 classdecl("Frame", file=FF, fields=FRAME_F)
 
 FRAMER_F = dict(name=STR, store=Ref("StoreLike"), stamp=Opt(REAL), elapsed=REAL, recurred=INT,
@@ -66,10 +99,45 @@ FRAMER_RUN_FIELDS = {"Framer": ["main", "actives", "active", "done", "human", "s
 # framer has active are its own frames
 ACTIVES_OWNED = ("forall(Ref('Framer'), lambda a: forall(lambda j: implies(0 <= j and j < len(a.actives), "
                  "a.actives[j].framer is a)), trigger=lambda a: a.actives)")
-OTHER_FRAMERS = havoc_all_but(FRAMER_RUN_FIELDS, keep=["self.framer"], wf=[ACTIVES_OWNED])
+
+
+def framers_may_change(keep, wf=(ACTIVES_OWNED,)):
+    """modifies entry for operations that run opaque acts / auxiliary framers: the run fields of every framer may
+    change except on the `keep` objects (no re-entrancy) - EXCEPT .done, which a `done` act may set True on any framer,
+    the kept ones included: on a kept framer .done changes monotonically (False -> True), everything else is kept"""
+    base = havoc_all_but(FRAMER_RUN_FIELDS, keep=list(keep), wf=list(wf))
+
+    def m(E):
+        keeps = [E.spec_value(k) for k in keep]
+        olds = [z3.Select(E.harr(DONE_KEY, [z3.IntSort()], z3.BoolSort()), kv.t) for kv in keeps]
+        base(E)
+        for kv, o in zip(keeps, olds):
+            d = E.fresh("done_after_acts", z3.BoolSort())
+            E.assume(z3.Implies(o, d))
+            E.heap[DONE_KEY] = z3.Store(E.heap[DONE_KEY], kv.t, d)
+            E.note_write(DONE_KEY, kv.t)
+
+    def allowed(E):
+        # frame check: the kept objects' .done is an allowed location (evaluated in the pre-state, as the keeps are)
+        saved = E.heap
+        E.heap = dict(E.heap_old)
+        try:
+            return [(DONE_KEY, E.spec_value(k).t) for k in keep]
+        finally:
+            E.heap = saved
+    m.frame = allowed
+    m.allbut = base.allbut
+    return m
+
+
+OTHER_FRAMERS = framers_may_change(keep=["self.framer"])
 REG.assume_note("opaque parts (acts, auxiliary framers' runs) are assumed to preserve the ownership "
                 "well-formedness: every framer's active frames are frames of that framer")
 REG.assume_note("no re-entrancy: acts, needs and auxiliary framers run by a frame do not call methods of, nor write "
-                "fields of, the framer that owns that frame (their effects on store data are not modelled)")
+                "fields of, the framer that owns that frame (their effects on store data are not modelled) - with ONE "
+                "exception that IS modelled: an action act may be a `done` act (CompleteDone: framer.done = True), so "
+                ".done of any framer, the owning one included, may go from False to True across enter / renter / recur / "
+                "precur / exit / rexit acts; needs and the transit (marker) acts generated from needs are conditions / "
+                "store updates and are assumed not to write framer fields at all")
 
 FA = "ioflo/base/acting.py"
